@@ -213,7 +213,10 @@ def history(draw):
         if kind == "records":
             variant = draw(st.sampled_from(SCHEMA_VARIANTS if not schemaless else ["identical", "copy", "reordered", "renumbered", "other_fields", "other_id", "identical"]))
             rows, klass = draw(batch(fields))
-            steps.append({"op": "records", "fresh": fresh, "variant": variant, "rows": rows, "klass": klass})
+            # now and then the k-th write of rows into the parquet file fails with an I/O error (once): such an append is refused
+            # (and leaves no trace) or, if it is accepted, holds every row
+            wf = draw(st.sampled_from([None] * 7 + [1, 1, 2]))
+            steps.append({"op": "records", "fresh": fresh, "variant": variant, "rows": rows, "klass": klass, **({"wfault": wf} if wf else {})})
         else:
             fv = draw(st.sampled_from(["equal", "equal", "reordered", "nullability", "type", "extra"]))
             ex = [f for f in fields]
@@ -278,6 +281,35 @@ def _variant_schema(fields, variant, base_schema_obj):
 
 
 _ARROW = None
+
+
+import contextlib as _ctxl
+
+
+@_ctxl.contextmanager
+def _write_fault(k):
+    """The k-th ParquetWriter.write_table call inside the block raises EIO (once)."""
+    fired = [False]
+    if not k:
+        yield fired
+        return
+    import pyarrow.parquet as pq
+
+    orig = pq.ParquetWriter.write_table
+    n = [0]
+
+    def wt(self, *a, **kw):
+        n[0] += 1
+        if n[0] == k and not fired[0]:
+            fired[0] = True
+            raise OSError(5, "injected: I/O error while writing rows")
+        return orig(self, *a, **kw)
+
+    pq.ParquetWriter.write_table = wt
+    try:
+        yield fired
+    finally:
+        pq.ParquetWriter.write_table = orig
 
 
 def _arrow_type(t):
@@ -395,9 +427,14 @@ def check_history(case):
                 for k in step["klass"]:
                     out["labels"].append(f"val:{k}")
                 try:
-                    t.append_records(rows, schema=sch)
+                    with _write_fault(step.get("wfault")) as wfired:
+                        t.append_records(rows, schema=sch)
                     ok, exc = True, None
+                    if wfired and wfired[0]:
+                        out["labels"].append("write-fault-fired:accepted")
                 except Exception as e:  # noqa
+                    if step.get("wfault"):
+                        out["labels"].append("write-fault:raised")
                     ok, exc = False, e
             else:
                 out["labels"].append("files")
